@@ -48,12 +48,22 @@ DenUnitString(t, wantInt) ==
          IN IF wantInt /\ (~integral \/ ~FitsI64(r.h \div 2)) THEN DNone
             ELSE IF r.ok = "yes" THEN DSome(val) ELSE DOpenV(val)
 
+\* unit strings under any built-in set: "accept exactly when the denoted amount fits in int64" for the tokens
+\* whose amount the table classifies (g_big); the second based set is read through the C16 grammar; other
+\* strings under the byte / nanosecond sets are not modelled (open)
+DenUnitStringU(t, u, wantInt) ==
+    LET b == Tok[t].ubig[u] IN
+    IF b = "fits" THEN DSome(IF wantInt THEN I64(HugeAmount) ELSE F64(2 * HugeAmount))
+    ELSE IF b = "nolex" THEN DNone
+    ELSE IF b = "over" THEN (IF wantInt THEN DNone ELSE DOpen)
+    ELSE IF u = "sec" THEN DenUnitString(t, wantInt) ELSE DOpen
+
 DenInt(raw, units) ==
     IF IsNamed(raw) THEN (IF raw.k = "str" THEN DNone ELSE DOpen)
     ELSE IF raw.k = "int" /\ FitsI64(raw.v) THEN DSome(I64(raw.v))
     ELSE IF raw.k = "float" /\ raw.v % 2 = 0 /\ FitsI64(raw.v \div 2) THEN DSome(I64(raw.v \div 2))
     ELSE IF raw.k = "bool" THEN DSome(I64(IF raw.v THEN 1 ELSE 0))
-    ELSE IF raw.k = "str" /\ units.some THEN DenUnitString(raw.v, TRUE)
+    ELSE IF raw.k = "str" /\ units.some THEN DenUnitStringU(raw.v, units.v, TRUE)
     ELSE IF raw.k = "str" /\ Tok[raw.v].int.ok THEN DSome(I64(Tok[raw.v].int.v))
     ELSE DNone
 
@@ -65,7 +75,7 @@ DenFloat(raw, units) ==
     ELSE IF raw.k = "float" THEN DSome(F64(raw.v))
     ELSE IF raw.k = "fspecial" THEN DSome(FS("float64", raw.v))
     ELSE IF raw.k = "bool" THEN DSome(F64(IF raw.v THEN 2 ELSE 0))
-    ELSE IF raw.k = "str" /\ units.some THEN DenUnitString(raw.v, FALSE)
+    ELSE IF raw.k = "str" /\ units.some THEN DenUnitStringU(raw.v, units.v, FALSE)
     ELSE IF raw.k = "str" /\ Tok[raw.v].flt.ok THEN
             (IF Tok[raw.v].flt.cls = "num" THEN DSome(F64(Tok[raw.v].flt.h)) ELSE DSome(FS("float64", Tok[raw.v].flt.cls)))
     ELSE DNone
@@ -168,13 +178,15 @@ DenAny(raw) ==
                ELSE DSome(M("any_any", [i \in 1..n |-> <<ks[i].v, ws[i].v>>]))
     ELSE DNone
 
+\* a huge amount against a bound / enum value at an edge point: no fixed relation (open)
+HugeOpen(s, d) == IF d.d = "some" /\ IsHuge(Ok(d.v)) /\ EdgeConstrained(s) THEN DOpen ELSE d
 Denotes(s, raw) ==
-    CASE s.kind = "int" -> DenInt(raw, s.units)
-      [] s.kind = "float" -> DenFloat(raw, s.units)
+    CASE s.kind = "int" -> HugeOpen(s, DenInt(raw, s.units))
+      [] s.kind = "float" -> HugeOpen(s, DenFloat(raw, s.units))
       [] s.kind = "string" -> DenString(raw)
       [] s.kind = "bool" -> DenBool(raw)
       [] s.kind = "pattern" -> DenPattern(raw)
-      [] s.kind = "enum_int" -> DenInt(raw, s.units)              \* the integer row, then membership
+      [] s.kind = "enum_int" -> HugeOpen(s, DenInt(raw, s.units))  \* the integer row, then membership
       [] s.kind = "enum_string" ->                                  \* the string row; native type T
             LET d == DenString(raw) IN
             IF d.d = "some" THEN DSome(S(IF s.typed THEN "named" ELSE "string", d.v.v)) ELSE d
